@@ -93,22 +93,59 @@ def rule_null_tested(chk, units):
                 "CodeHolder::new_fixup, ConstPool::Tree::new_node_t) is dereferenced, written through or handed to a callee only after "
                 "it tested non-null (may-analysis per allocation site: unchecked results flow forward, killed on the non-null branch edge)")
 
-    def one(u):
-        return u, core.astfacts(u, funcs_calling=ALLOC_RE)
+    # wrappers: functions with a pointer result that may return the (untested) result of an allocation primitive or of another
+    # wrapper are allocation callees themselves (RAStackAllocator::new_slot, BaseRAPass::get_or_create_stack_slot, ...)
+    regex = ALLOC_RE
+    wrappers = set()
     fns = {}
-    with ThreadPoolExecutor(16) as ex:
-        for u, f in ex.map(one, units):
-            chk.units.add(u)
-            for fo in f["functions"]:
-                key = (fo["name"], fo["file"], fo["line"])
-                if key not in fns and not fo.get("cfg_failed"):
-                    fns[key] = fo
+    for rnd in range(4):
+        def one(u, regex=regex):
+            return u, core.astfacts(u, funcs_calling=regex)
+        fns = {}
+        with ThreadPoolExecutor(16) as ex:
+            for u, f in ex.map(one, units):
+                chk.units.add(u)
+                for fo in f["functions"]:
+                    key = (fo["name"], fo["file"], fo["line"])
+                    if key not in fns and not fo.get("cfg_failed"):
+                        fns[key] = fo
+        pat = re.compile(regex)
+        new = set()
+        for key, fo in fns.items():
+            if "*" not in (fo.get("ret") or "") or "/ujit/" in fo["file"]:
+                continue
+            g = cfg.Fn(fo)
+            paths = set()
+            for i, x in g.calls(lambda x: x.get("callee") and pat.search(x["callee"])):
+                pth, _b = binding_of(g, i)
+                if pth:
+                    paths.add(pth)
+            for b, idx, rr in g.return_sites():
+                v = g.e(rr).get("val")
+                stack = [g.strip(v)] if v is not None else []
+                while stack:
+                    t = stack.pop()
+                    tx = g.e(t)
+                    if tx is None:
+                        continue
+                    if tx["k"] == "cond":
+                        stack += [g.strip(tx["a"]), g.strip(tx["b"])]
+                    elif tx["k"] in ("call", "mcall") and tx.get("callee") and pat.search(tx["callee"]):
+                        new.add(g.name)
+                    elif g.access_path(t) in paths:
+                        new.add(g.name)
+        new = {w for w in new if not pat.search(w)}
+        if not new:
+            break
+        wrappers |= new
+        regex = regex + "|" + "|".join(re.escape(w) + "$" for w in sorted(new))
+    ALLOC_ALL = re.compile(regex)
     nsites = 0
     for key in sorted(fns):
         fn = cfg.Fn(fns[key])
         if "/ujit/" in fn.file:
             continue
-        calls = [(i, x) for i, x in fn.calls(lambda x: x.get("callee") and ALLOC_PY.search(x["callee"]))]
+        calls = [(i, x) for i, x in fn.calls(lambda x: x.get("callee") and ALLOC_ALL.search(x["callee"]))]
         if not calls:
             continue
         ords = {}
@@ -129,8 +166,13 @@ def rule_null_tested(chk, units):
                     px = fn.e(par) if par else None
                     hops += 1
                 bad = px is not None and ((px["k"] == "member" and px.get("arrow")) or (px["k"] == "unop" and px["op"] == "*") or px["k"] == "new")
-                chk.ob(R, inst + "|unbound", not bad, loc=fn.loc(i),
-                       detail="result of %s is dereferenced directly without a null test" % short(x["callee"]), key="nulltested|" + inst)
+                # `(void)creator(...)`: the caller relies on the creator's side effect and never learns that it failed
+                par0 = fn.e(fn.parent_map().get(i)) if fn.parent_map().get(i) else None
+                discarded = par0 is not None and par0["k"] == "cast" and (par0.get("ty") or "") == "void" and x["callee"] in wrappers
+                chk.ob(R, inst + "|unbound", not bad and not discarded, loc=fn.loc(i),
+                       detail=("result of %s is dereferenced directly without a null test" % short(x["callee"])) if bad else
+                              ("the result of %s is explicitly discarded: when the allocation behind it fails nothing was created, and the caller "
+                               "goes on as if it had been" % short(x["callee"])), key="nulltested|" + inst)
             else:
                 sites[bind_id] = (path, inst, i)
         if not sites:
